@@ -299,10 +299,18 @@ func c10delegation(c *Ctx, info *types.Info, sc *fnScope, recv, t types.Object, 
 	var lit *ast.CompositeLit
 	if o != nil {
 		if d := sc.singleDef(o); d != nil {
-			lit, _ = unparen(d).(*ast.CompositeLit)
+			var linfo *types.Info
+			var lrecv types.Object
+			if lit, linfo, lrecv = litThroughHelper(c.P, info, d, recv); lit != nil {
+				info, recv = linfo, lrecv
+			}
 		}
 	} else {
-		lit, _ = unparen(sel.X).(*ast.CompositeLit)
+		var linfo *types.Info
+		var lrecv types.Object
+		if lit, linfo, lrecv = litThroughHelper(c.P, info, sel.X, recv); lit != nil {
+			info, recv = linfo, lrecv
+		}
 	}
 	if lit == nil {
 		prob(r.Pos(), "delegate receiver is not a fresh composite literal")
